@@ -21,7 +21,10 @@ EXPLANATION = (
     "(f) iter_cells recognises an absent index limit of *ranges* with `is None` only -- a limit is never tested for truth, so the legitimate limit 0 (an empty range) is not taken for 'no limit'; "
     "(g) set_nevents divides nevents by exactly self.get_nevents(include_out_of_range=<the same flag>), not adjusted afterwards, and "
     "_parse_error_names keeps its errors in field order (no sort/reverse/insert), because _get_err_indices takes the position of a "
-    "parsed error for its column.")
+    "parsed error for its column; "
+    "(h) iter_bins, iter_bins_with_edges, get_bin_edges, iter_cells and hist_to_graph pair a cell's content, index and edges through one "
+    "and the same index variable (low = edges[axis][i], high = edges[axis][i + 1], enumerated forwards), and the left/right/middle "
+    "coordinate of a graph point takes the matching member of (low, high).")
 RULES = {
     "C12-a": "GUARD: division by a scale/count is dominated by a zero test that raises LenaValueError",
     "C12-b": "PURE: histogram.add leaves its operands alone and returns a new histogram over copied edges",
@@ -31,6 +34,8 @@ RULES = {
     "C12-f": "LIMIT: iter_cells tells an absent index limit (None) from the limit 0 -- limits are compared with None, never tested for truth",
     "C12-g": "AGREE: set_nevents divides by exactly what get_nevents reports for the same include_out_of_range; the parsed error "
              "names keep the order of the fields (their position is their column)",
+    "C12-h": "PAIRING: the cell iterators and hist_to_graph pair a cell's content, index and edges through one and the same index "
+             "variable (low = edges[axis][i], high = edges[axis][i + 1]); the left/right/middle coordinate takes the matching member",
 }
 HIST = "lena.structures.histogram"
 GRAPH = "lena.structures.graph"
@@ -531,7 +536,143 @@ def check_agreements(ctx):
                 ctx.ok("C12-g", pe, "parsed errors keep the order of the field names (lists %s only appended to, iterated forwards)" % sorted(chain))
 
 
+def check_pairing(ctx):
+    """Conversions keep every cell once, with its own index and edges.  The structural part: wherever a cell's content is
+    put together with an index or with edges, all of them come from the same index variable, the low edge is edges[axis][i]
+    and the high edge edges[axis][i + 1], enumeration is forwards."""
+    res = ctx.res
+    HFm = "lena.structures.hist_functions"
+    # iter_bins
+    fn = ctx.tree.func(HFm, "iter_bins")
+    bp = A.func_params(fn)[0]
+    loops = [l for l in A.walk_local(fn) if isinstance(l, ast.For)]
+    outer = [l for l in loops if A.call_name(l.iter) == "enumerate" and l.iter.args and A.src(l.iter.args[0]) == bp]
+    ok = len(outer) == 1 and isinstance(outer[0].target, ast.Tuple) and isinstance(outer[0].target.elts[0], ast.Name)
+    why = "no `for ind, _ in enumerate(bins)`"
+    if ok:
+        ind = outer[0].target.elts[0].id
+        inner = [l for l in A.walk_body(outer[0].body) if isinstance(l, ast.For) and isinstance(l.iter, ast.Call)
+                 and res.call_canon(l.iter) == HFm + ".iter_bins"]
+        ok = len(inner) == 1 and [A.src(a) for a in inner[0].iter.args] == ["%s[%s]" % (bp, ind)] and isinstance(inner[0].target, ast.Tuple) \
+            and len(inner[0].target.elts) == 2
+        why = "the recursion is not into bins[ind] for the enumerated ind"
+        if ok:
+            sub, val = [A.src(e) for e in inner[0].target.elts]
+            ys = [y for y in A.walk_body(inner[0].body) if isinstance(y, ast.Yield)]
+            ok = len(ys) == 1 and A.src(ys[0].value).replace(" ", "") in ("((%s,)+%s,%s)" % (ind, sub, val), "(((%s,)+%s),%s)" % (ind, sub, val))
+            why = "the yielded pair is `%s`, not ((ind,) + sub_index, value)" % (A.src(ys[0].value) if ys else None)
+    ctx.check("C12-h", ok, fn, "iter_bins: %s -- a cell would be reported under another cell's index" % why,
+              detail="iter_bins: index prefix and recursion use the same ind", construct="iter_bins-pairing")
+    base = [y for y in A.walk_local(fn) if isinstance(y, ast.Yield) and A.src(y.value).replace(" ", "") == "((),%s)" % bp]
+    ctx.check("C12-h", len(base) == 1, fn, "iter_bins does not yield ((), content) for a single cell", detail="iter_bins base case",
+              construct="iter_bins-base")
+    # iter_bins_with_edges and get_bin_edges: low = edges[axis][i], high = edges[axis][i + 1] for (axis, i) in enumerate(index)
+    fn = ctx.tree.func(HFm, "iter_bins_with_edges")
+    bp, ep = A.func_params(fn)[:2]
+    prod = [l for l in A.walk_local(fn) if isinstance(l, ast.For) and isinstance(l.iter, ast.Call) and res.call_canon(l.iter) == "itertools.product"]
+    ok = len(prod) == 1 and isinstance(prod[0].target, ast.Name)
+    why = "no loop over itertools.product of the index ranges"
+    if ok:
+        index = prod[0].target.id
+        gets = [st for st in A.walk_body(prod[0].body) if isinstance(st, ast.Assign) and isinstance(st.value, ast.Call)
+                and res.call_canon(st.value) == HFm + ".get_bin_on_index"]
+        ok = len(gets) == 1 and [A.src(a) for a in gets[0].value.args] == [index, bp]
+        why = "the content is not get_bin_on_index(index, bins) for the index of this iteration"
+        if ok:
+            binv = A.src(gets[0].targets[0])
+            en = [l for l in A.walk_body(prod[0].body) if isinstance(l, ast.For) and A.call_name(l.iter) == "enumerate"
+                  and l.iter.args and A.src(l.iter.args[0]) == index and isinstance(l.target, ast.Tuple)]
+            ok = len(en) == 1
+            why = "no `for axis, i in enumerate(index)`"
+            if ok:
+                ax, ii = [A.src(e) for e in en[0].target.elts]
+                apps = {}
+                for c in A.walk_body(en[0].body):
+                    if isinstance(c, ast.Call) and isinstance(c.func, ast.Attribute) and c.func.attr == "append" and len(c.args) == 1:
+                        apps[A.src(c.func.value)] = A.norm_src(c.args[0])
+                lows = [k for k, v in apps.items() if v == "%s[%s][%s]" % (ep, ax, ii)]
+                highs = [k for k, v in apps.items() if v in ("%s[%s][%s + 1]" % (ep, ax, ii), "%s[%s][1 + %s]" % (ep, ax, ii))]
+                ok = len(lows) == 1 and len(highs) == 1 and len(apps) == 2
+                why = "the bounds appended per axis are %s, not edges[axis][i] and edges[axis][i + 1]" % sorted(apps.values())
+                if ok:
+                    ys = [y for y in A.walk_body(prod[0].body) if isinstance(y, ast.Yield)]
+                    ok = len(ys) == 1 and A.src(ys[0].value).replace(" ", "") == "(%s,tuple(zip(%s,%s)))" % (binv, lows[0], highs[0])
+                    why = "the yielded pair is `%s`, not (content, tuple(zip(lows, highs)))" % (A.src(ys[0].value) if ys else None)
+    ctx.check("C12-h", ok, fn, "iter_bins_with_edges: %s -- a cell would be reported with other edges than its own (or with its bounds "
+              "swapped)" % why, detail="iter_bins_with_edges: content and (low, high) per axis from one index", construct="iter_bins_with_edges-pairing")
+    fn = ctx.tree.func(HFm, "get_bin_edges")
+    ip, ep = A.func_params(fn)[:2]
+    pairs = []
+    for r in [r for r in A.walk_local(fn) if isinstance(r, ast.Return)]:
+        v = r.value
+        if isinstance(v, ast.Tuple) and len(v.elts) == 2:
+            pairs.append((r, A.norm_src(v.elts[0]), A.norm_src(v.elts[1]), None))
+        elif isinstance(v, ast.ListComp) and isinstance(v.elt, ast.Tuple) and len(v.elt.elts) == 2:
+            pairs.append((r, A.norm_src(v.elt.elts[0]), A.norm_src(v.elt.elts[1]), v))
+    okp = len(pairs) == 2
+    for r, lo, hi, comp in pairs:
+        if comp is None:
+            okp = okp and lo == "%s[%s]" % (ep, ip) and hi in ("%s[%s + 1]" % (ep, ip), "%s[1 + %s]" % (ep, ip))
+        else:
+            g = comp.generators[0]
+            okg = len(comp.generators) == 1 and A.call_name(g.iter) == "enumerate" and g.iter.args and A.src(g.iter.args[0]) == ip \
+                and isinstance(g.target, ast.Tuple) and len(g.target.elts) == 2 and not g.ifs
+            if okg:
+                ax, ii = [A.src(e) for e in g.target.elts]
+                okg = lo == "%s[%s][%s]" % (ep, ax, ii) and hi in ("%s[%s][%s + 1]" % (ep, ax, ii), "%s[%s][1 + %s]" % (ep, ax, ii))
+            okp = okp and okg
+    ctx.check("C12-h", okp, fn, "get_bin_edges does not return (edges[i], edges[i + 1]) -- per axis (edges[axis][i], edges[axis][i + 1]) -- "
+              "for the given index", detail="get_bin_edges: (low, high) of the indexed cell", construct="get_bin_edges-pairing")
+    # iter_cells: edges, content and index of one HistCell come from one index
+    fn = ctx.tree.func(HFm, "iter_cells")
+    cells = [c for c in A.walk_local(fn) if isinstance(c, ast.Call) and A.call_name(c) == "HistCell"]
+    okc = len(cells) == 1 and len(cells[0].args) == 3
+    if okc:
+        e, b, i3 = cells[0].args
+        okc = isinstance(i3, ast.Name) and isinstance(e, ast.Call) and res.call_canon(e) == HFm + ".get_bin_edges" and A.src(e.args[0]) == i3.id \
+            and isinstance(b, ast.Call) and res.call_canon(b) == HFm + ".get_bin_on_index" and A.src(b.args[0]) == i3.id
+        loop = A.enclosing(cells[0], ast.For)
+        okc = okc and loop is not None and A.src(loop.target) == i3.id
+    ctx.check("C12-h", okc, fn, "iter_cells does not build HistCell(get_bin_edges(ind, edges), get_bin_on_index(ind, bins), ind) from the "
+              "loop's own index", detail="iter_cells: edges, content and index from one ind", construct="iter_cells-pairing")
+    # hist_to_graph: left = member 0, right = member 1, middle = half the sum, of every axis' (low, high)
+    fn = ctx.tree.func(HFm, "hist_to_graph")
+    want = {"left": "coord[0]", "right": "coord[1]"}
+    n = 0
+    for st in A.walk_local(fn):
+        if not (isinstance(st, ast.Assign) and isinstance(st.value, ast.Lambda)):
+            continue
+        iff = A.enclosing(st, ast.If)
+        if iff is None:
+            continue
+        m = [c for c in ast.walk(iff.test) if isinstance(c, ast.Constant) and c.value in ("left", "right", "middle")]
+        conds = [k for k in ("left", "right", "middle") if any(x.value == k for x in m)]
+        if len(conds) != 1 or st not in iff.body:
+            continue
+        kind = conds[0]
+        n += 1
+        lam = st.value
+        body = lam.body
+        gen = body.args[0] if isinstance(body, ast.Call) and A.call_name(body) == "tuple" and body.args else None
+        ok2 = isinstance(gen, (ast.GeneratorExp, ast.ListComp)) and len(gen.generators) == 1 and A.src(gen.generators[0].iter) == A.func_params(lam)[0]
+        if ok2:
+            c = A.src(gen.generators[0].target)
+            e = A.norm_src(gen.elt).replace(c, "coord")
+            if kind in want:
+                ok2 = e == want[kind]
+            else:
+                ok2 = e in ("0.5 * (coord[0] + coord[1])", "(coord[0] + coord[1]) / 2", "(coord[0] + coord[1]) * 0.5", "(coord[0] + coord[1]) / 2.0")
+        ctx.check("C12-h", ok2, st, "hist_to_graph takes `%s` for get_coordinate=%r: the point would not sit at the %s of its cell" % (
+            A.short(lam, 60), kind, kind), detail="hist_to_graph: %s coordinate" % kind, construct="hist_to_graph-coord:%s" % kind)
+    ctx.instances_floor("C12-h/coords", n, 3, "coordinate selectors of hist_to_graph")
+    loops = [l for l in A.walk_local(fn) if isinstance(l, ast.For) and isinstance(l.iter, ast.Call) and res.call_canon(l.iter) == HFm + ".iter_bins_with_edges"]
+    okl = len(loops) == 1 and [A.src(a) for a in loops[0].iter.args] == ["hist.bins", "hist.edges"]
+    ctx.check("C12-h", okl, fn, "hist_to_graph does not enumerate iter_bins_with_edges(hist.bins, hist.edges)", detail="hist_to_graph: one point per cell",
+              construct="hist_to_graph-cells")
+
+
 def check(ctx):
+    check_pairing(ctx)
     check_agreements(ctx)
     check_tocsv_stateless(ctx)
     check_index_limits(ctx)
@@ -542,6 +683,13 @@ def check(ctx):
 
 
 VARIANTS = [
+    M("edges-high-is-low", "lena/structures/hist_functions.py", "            edges_high.append(edges[var][var_ind+1])", "            edges_high.append(edges[var][var_ind])", ["C12-h"]),
+    M("edges-swapped-zip", "lena/structures/hist_functions.py", "        yield (bin_, tuple(zip(edges_low, edges_high)))", "        yield (bin_, tuple(zip(edges_high, edges_low)))", ["C12-h"]),
+    M("iter-bins-neighbour", "lena/structures/hist_functions.py", "            for sub_ind, val in iter_bins(bins[ind]):", "            for sub_ind, val in iter_bins(bins[ind-1]):", ["C12-h"]),
+    M("get-bin-edges-wide", "lena/structures/hist_functions.py", "        return (edges[index], edges[index+1])", "        return (edges[index], edges[index+2])", ["C12-h"]),
+    M("graph-right-is-left", "lena/structures/hist_functions.py", "        get_coord = lambda edges: tuple(coord[1] for coord in edges)", "        get_coord = lambda edges: tuple(coord[0] for coord in edges)", ["C12-h"]),
+    M("graph-middle-quarter", "lena/structures/hist_functions.py", "        get_coord = lambda edges: tuple(0.5*(coord[0] + coord[1])", "        get_coord = lambda edges: tuple(0.25*(coord[0] + coord[1])", ["C12-h"]),
+    M("cells-other-index", "lena/structures/hist_functions.py", "        yield HistCell(get_bin_edges(ind, edges),\n                       get_bin_on_index(ind, bins),\n                       ind)", "        yield HistCell(get_bin_edges(ind, edges),\n                       get_bin_on_index(ind[::-1], bins),\n                       ind)", ["C12-h"]),
     M("set-nevents-own-count", "lena/structures/histogram.py", "        old_nevents = self.get_nevents(\n            include_out_of_range=include_out_of_range\n        )", "        old_nevents = self.get_nevents()\n        if include_out_of_range and self.n_out_of_range > 0:\n            old_nevents += self.n_out_of_range", ["C12-g"]),
     M("set-nevents-flag-dropped", "lena/structures/histogram.py", "        old_nevents = self.get_nevents(\n            include_out_of_range=include_out_of_range\n        )", "        old_nevents = self.get_nevents()", ["C12-g"]),
     M("parsed-errors-sorted", "lena/structures/graph.py", "            parsed_errors.append((\"error\", err_coords[0], err_tail, ind))\n\n        return parsed_errors", "            parsed_errors.append((\"error\", err_coords[0], err_tail, ind))\n\n        parsed_errors.sort(key=lambda err: err[1])\n        return parsed_errors", ["C12-g"]),
